@@ -754,9 +754,14 @@ fn main() {
     let want_fix = case["separate_fix"].as_bool();
     let mut still = false;
     println!("source:\n{}", lay.source);
-    println!("rules: {:?}", case["rules"]);
+    println!("rules: {}", case["rules"]);
+    let want_sig = v["sig"].as_str();
     for (sig, c) in &out.violations {
       if want_fix.is_some() && c["separate_fix"].as_bool() != want_fix {
+        continue;
+      }
+      if want_sig.is_some() && want_sig != Some(sig.as_str()) {
+        println!("(the case also shows another disagreement: {sig})");
         continue;
       }
       still = true;
